@@ -312,6 +312,13 @@ pub fn m_probe_all() {
         let r = MoneyItem(6.0, a.clone()).calculate(&c2, true, &PercentItem(50.0), OperationType::Sub).unwrap();
         out("money_sub_percent", r.get_underlying_number());
     }
+    {
+        let f = |x: f64, n: u8, rm: bool, ur: bool| crate::formatter::format_number(x, ",".to_string(), ".".to_string(), n, rm, ur);
+        std::println!("PROBE format_number_grouped S:{}", f(-1234567.891, 2, true, true));
+        std::println!("PROBE format_number_removed S:{}", f(1000.0, 2, true, true));
+        std::println!("PROBE format_number_kept S:{}", f(0.5, 3, false, true));
+        std::println!("PROBE format_number_plain S:{}", f(12345.25, 1, true, false));
+    }
     out("number_div", NumberItem(7.0, NumberType::Decimal).calculate(&cfg, true, &NumberItem(2.0, NumberType::Decimal), OperationType::Div).unwrap().get_underlying_number());
     out("number_div_zero", NumberItem(7.0, NumberType::Decimal).calculate(&cfg, true, &NumberItem(0.0, NumberType::Decimal), OperationType::Div).unwrap().get_underlying_number());
     {
@@ -411,27 +418,36 @@ pub fn m_replay_program() {
     vassume(n >= 1 && n <= 6);
     let mut prog = [0u8; 6];
     let mut i = 0usize;
-    while i < n as usize { prog[i] = vany(); vassume(prog[i] < 17); i += 1; }
+    while i < n as usize { prog[i] = vany(); vassume(prog[i] < 22); i += 1; }
     let mut cs = [0f64; 6];
     i = 0;
     while i < n as usize { cs[i] = vany(); i += 1; }
     let cfg = blank_config();
     let session = Session::new();
-    let names: [&[&str]; 3] = [&["x"], &["y"], &["x", "y"]];
-    let mut env: [Option<f64>; 3] = [None, None, None];
+    let names: [&[&str]; 4] = [&["x"], &["y"], &["x", "y"], &["x", "y", "z"]];
+    let mut env: [Option<f64>; 4] = [None, None, None, None];
     i = 0;
     while i < n as usize {
         let t = prog[i] as usize;
         let c = cs[i];
         let (lhs, kind, src): (Option<usize>, u8, usize) = if t < 15 { let nm = t / 5; match t % 5 { 0 => (Some(nm), 0, 0), 1 => (Some(nm), 1, nm), 2 => (None, 2, nm), 3 => (Some(nm), 3, 0), _ => (Some(nm), 4, 0) } }
-            else if t == 15 { (Some(1), 5, 0) } else { (Some(0), 6, 2) };
+            else if t == 15 { (Some(1), 5, 0) } else if t == 16 { (Some(0), 6, 2) }
+            // 17: X = c   18: X + c   19: x y z = c   20: x y z + x + c   21: x y  y + c
+            else if t == 17 { (Some(0), 7, 0) } else if t == 18 { (None, 8, 0) } else if t == 19 { (Some(3), 0, 0) } else if t == 20 { (None, 9, 3) } else { (None, 10, 2) };
         let mut tk = mk_tokinizer(&cfg, &session);
         let mut pos = 0usize;
         let push_name = |tk: &mut Tokinizer, pos: &mut usize, nm: usize| { for w in names[nm].iter() { tk.token_infos.push(c03_ti(*pos, w, TokenType::Text(w.to_string()))); *pos += w.len() + 1; } };
         let push_op = |tk: &mut Tokinizer, pos: &mut usize, ch: char| { tk.token_infos.push(c03_ti(*pos, "o", TokenType::Operator(ch))); *pos += 2; };
         let push_num = |tk: &mut Tokinizer, pos: &mut usize, v: f64| { tk.token_infos.push(c03_ti(*pos, "1", TokenType::Number(v, NumberType::Decimal))); *pos += 2; };
-        if let Some(l) = lhs { push_name(&mut tk, &mut pos, l); push_op(&mut tk, &mut pos, '='); }
+        let push_cap = |tk: &mut Tokinizer, pos: &mut usize, nm: usize| { for w in names[nm].iter() { tk.token_infos.push(c03_ti(*pos, &w.to_uppercase(), TokenType::Text(w.to_uppercase()))); *pos += w.len() + 1; } };
+        if let Some(l) = lhs { if kind == 7 { push_cap(&mut tk, &mut pos, l); } else { push_name(&mut tk, &mut pos, l); } push_op(&mut tk, &mut pos, '='); }
+        let second = if kind == 9 { 0usize } else { 1usize };
+        vassume(!(kind == 9 || kind == 10) || env[second].is_some());
         let want: Option<f64> = match kind {
+            7 => { push_num(&mut tk, &mut pos, c); Some(c) }
+            8 => { push_cap(&mut tk, &mut pos, src); push_op(&mut tk, &mut pos, '+'); push_num(&mut tk, &mut pos, c); env[src].map(|v| v + c) }
+            9 => { push_name(&mut tk, &mut pos, src); push_op(&mut tk, &mut pos, '+'); push_name(&mut tk, &mut pos, 0); push_op(&mut tk, &mut pos, '+'); push_num(&mut tk, &mut pos, c); env[src].and_then(|v| env[0].map(|w| v + w + c)) }
+            10 => { push_name(&mut tk, &mut pos, src); push_name(&mut tk, &mut pos, 1); push_op(&mut tk, &mut pos, '+'); push_num(&mut tk, &mut pos, c); env[src].and_then(|v| env[1].map(|w| v + w + c)) }
             0 => { push_num(&mut tk, &mut pos, c); Some(c) }
             1 | 2 => { push_name(&mut tk, &mut pos, src); push_op(&mut tk, &mut pos, '+'); push_num(&mut tk, &mut pos, c); env[src].map(|v| v + c) }
             3 => { push_num(&mut tk, &mut pos, c); push_op(&mut tk, &mut pos, '*'); push_op(&mut tk, &mut pos, ')'); None }
@@ -439,7 +455,7 @@ pub fn m_replay_program() {
             5 => { push_name(&mut tk, &mut pos, 0); env[0] }
             _ => { push_name(&mut tk, &mut pos, src); push_op(&mut tk, &mut pos, '*'); push_num(&mut tk, &mut pos, c); env[src].map(|v| v * c) }
         };
-        vassume(kind == 0 || kind == 3 || kind == 4 || env[if kind == 5 { 0 } else { src }].is_some());
+        vassume(kind == 0 || kind == 3 || kind == 4 || kind == 7 || env[if kind == 5 { 0 } else { src }].is_some());
         crate::variable::update_token_variables(&mut tk);
         tk.token_generator();
         tk.token_cleaner();
@@ -486,3 +502,170 @@ pub fn m_replay_huge_line() {
 }
 #[cfg(kani)]
 pub fn m_replay_huge_line() {}
+
+/// a clock-time literal natively: (hour, has minute, minute, has second, second, has meridiem, pm, zone offset in minutes);
+/// the literal is written out, evaluated under set_timezone(GMT+-h:mm) and must be the instant today + wall time - offset
+#[cfg(not(kani))]
+pub fn m_replay_time_literal() {
+    use crate::compiler::time::TimeItem;
+    let h: u8 = vany(); let has_m: bool = vany(); let m: u8 = vany(); let has_s: bool = vany(); let s: u8 = vany();
+    let has_mer: bool = vany(); let pm: bool = vany(); let off: i32 = vany();
+    vassume(h <= 23 && m <= 59 && s <= 59 && off >= -12 * 60 && off <= 14 * 60);
+    vassume(has_m || has_mer);
+    vassume(!has_s || has_m);
+    vassume(!has_mer || (h <= 12 && !has_s));
+    let mut text = alloc::format!("{}", h);
+    if has_m { text.push_str(&alloc::format!(":{:02}", m)); }
+    if has_s { text.push_str(&alloc::format!(":{:02}", s)); }
+    if has_mer { text.push_str(if pm { " pm" } else { " am" }); }
+    let mut calc = crate::SmartCalc::default();
+    let zone = alloc::format!("GMT{}{}:{:02}", if off < 0 { "-" } else { "+" }, off.abs() / 60, off.abs() % 60);
+    calc.set_timezone(zone).expect("zone accepted");
+    let today = chrono::Utc::now().date_naive();
+    let r = calc.execute("en", text);
+    let line = r.lines[0].as_ref().expect("a result line");
+    let res = line.result.as_ref().expect("the literal evaluates");
+    let item = match res.ast.deref() { SmartCalcAstType::Item(i) => i.clone(), _ => panic!("not an item") };
+    let t = item.as_any().downcast_ref::<TimeItem>().expect("a time");
+    let hour24 = if has_mer && pm && h < 12 { h as i64 + 12 } else if has_mer && !pm && h == 12 { 0 } else { h as i64 };
+    let want = today.and_hms_opt(0, 0, 0).unwrap() + Duration::seconds(hour24 * 3600 + if has_m { m as i64 * 60 } else { 0 } + if has_s { s as i64 } else { 0 } - off as i64 * 60);
+    assert!(t.0 == want);
+    assert!(t.1.offset == off);
+}
+#[cfg(kani)]
+pub fn m_replay_time_literal() {}
+
+/// native table for the phrase specs: every rule of a language as the loader built it (function name + the token
+/// patterns the regex tokeniser made of config.json's pattern strings). One line per pattern:
+/// RULE|lang|function_name|tok;;tok;;...
+#[cfg(not(kani))]
+pub fn m_dump_rules() {
+    use super::std;
+    use crate::tokinizer::RuleType;
+    use crate::types::FieldType;
+    let cfg = real_config();
+    for (lang, rules) in cfg.rule.iter() {
+        for rule in rules.iter() {
+            if let RuleType::Internal { function_name, tokens_list, .. } = rule {
+                for pattern in tokens_list.iter() {
+                    let mut toks: Vec<String> = Vec::new();
+                    for t in pattern.iter() {
+                        let tt = t.token_type.borrow();
+                        let s = match tt.as_ref() {
+                            Some(TokenType::Field(f)) => match f.deref() {
+                                FieldType::Text(n, v) => alloc::format!("FText~{}~{}", n, v.clone().unwrap_or_default()),
+                                FieldType::DateTime(n) => alloc::format!("FDateTime~{}", n),
+                                FieldType::Date(n) => alloc::format!("FDate~{}", n),
+                                FieldType::Time(n) => alloc::format!("FTime~{}", n),
+                                FieldType::Money(n) => alloc::format!("FMoney~{}", n),
+                                FieldType::Percent(n) => alloc::format!("FPercent~{}", n),
+                                FieldType::Number(n) => alloc::format!("FNumber~{}", n),
+                                FieldType::Month(n) => alloc::format!("FMonth~{}", n),
+                                FieldType::Duration(n) => alloc::format!("FDuration~{}", n),
+                                FieldType::Timezone(n) => alloc::format!("FTimezone~{}", n),
+                                FieldType::Group(n, w) => alloc::format!("FGroup~{}~{}", n, w.join(",")),
+                                FieldType::TypeGroup(ts, n) => alloc::format!("FTypeGroup~{}~{}", n, ts.join(",")),
+                                FieldType::DynamicType(n, v) => alloc::format!("FDynamicType~{}~{}", n, v.clone().unwrap_or_default()),
+                            },
+                            Some(TokenType::Text(w)) => alloc::format!("T~{}", w),
+                            Some(TokenType::Operator(c)) => alloc::format!("O~{}", c),
+                            Some(other) => alloc::format!("X~{:?}", other),
+                            None => "X~none".to_string(),
+                        };
+                        toks.push(s);
+                    }
+                    std::println!("RULE|{}|{}|{}", lang, function_name, toks.join(";;"));
+                }
+            }
+        }
+    }
+}
+#[cfg(kani)]
+pub fn m_dump_rules() {}
+
+/// a percentage phrase natively: (phrase index of engine M's C05_PHRASES, operand is money, x, p, b); the token line is
+/// built directly (no literal spelling involved) and goes through the real rule table, glue, parser and interpreter
+#[cfg(not(kani))]
+pub fn m_replay_percent_phrase() {
+    use crate::compiler::Interpreter;
+    use crate::syntax::SyntaxParser;
+    use crate::compiler::money::MoneyItem;
+    let pi: u8 = vany(); let money: u8 = vany(); let x: f64 = vany(); let p: f64 = vany(); let b: f64 = vany();
+    vassume(pi < 11 && x.is_finite() && p.is_finite() && b.is_finite());
+    let cfg = real_config();
+    let session = Session::new();
+    let usd = cfg.get_currency("usd".to_string()).expect("usd");
+    let templ: &[&str] = match pi {
+        0 => &["X", "+", "P"], 1 => &["X", "-", "P"], 2 => &["X", "P"], 3 => &["P", "of", "X"], 4 => &["X", "of", "P"],
+        5 => &["P", "on", "X"], 6 => &["X", "on", "P"], 7 => &["P", "off", "X"], 8 => &["X", "off", "P"],
+        9 => &["X", "is", "what", "%", "of", "B"], _ => &["X", "is", "P", "of", "what"] };
+    let mut tk = en_tokinizer(&cfg, &session);
+    let mut pos = 0usize;
+    for t in templ.iter() {
+        let tok = match *t {
+            "X" => if money == 1 { TokenType::Money(x, usd.clone()) } else { TokenType::Number(x, NumberType::Decimal) },
+            "B" => if money == 1 { TokenType::Money(b, usd.clone()) } else { TokenType::Number(b, NumberType::Decimal) },
+            "P" => TokenType::Percent(p),
+            w if w.len() == 1 && !w.chars().next().unwrap().is_alphabetic() => TokenType::Operator(w.chars().next().unwrap()),
+            w => TokenType::Text(w.to_string()),
+        };
+        tk.token_infos.push(c03_ti(pos, "x", tok));
+        pos += 2;
+    }
+    crate::tokinizer::verif_k_local::run_rule_tokinizer(&mut tk);
+    tk.token_generator();
+    tk.token_cleaner();
+    crate::tokinizer::verif_k_local::missing_token_adder(&mut tk);
+    let ast = { let mut ps = SyntaxParser::new(&session, &tk); ps.parse().expect("the phrase parses") };
+    let res = Interpreter::execute(&cfg, Rc::new(ast), &session).expect("the phrase evaluates");
+    let item = match res.deref() { SmartCalcAstType::Item(i) => i.clone(), _ => panic!("no item") };
+    let div = |a: f64, d: f64| if d == 0.0 { 0.0 } else { a / d };
+    let want = match pi { 0 | 2 | 5 | 6 => x * (1.0 + p / 100.0), 1 | 7 | 8 => x * (1.0 - p / 100.0), 3 | 4 => x * p / 100.0, 9 => div(100.0 * x, b), _ => div(100.0 * x, p) };
+    let kind = if pi == 9 { "PERCENT" } else if money == 1 { "MONEY" } else { "NUMBER" };
+    assert!(item.type_name() == kind);
+    let got = item.get_underlying_number();
+    assert!((got - want).abs() <= 1e-9 * (x.abs() + want.abs() + 1.0) || got == want);
+    if kind == "MONEY" { assert!(item.as_any().downcast_ref::<MoneyItem>().expect("money").get_currency().code == usd.code); }
+}
+#[cfg(kani)]
+pub fn m_replay_percent_phrase() {}
+
+/// a phrase of kinds and words natively through the real rule table: (n, n token codes, kind of the token the expected
+/// rule leaves behind or 255); codes 0..8 = number, percent, money, date, time, date-time, duration, zone, unit quantity,
+/// 16.. = words of engine M's WIRING_WORDS. Exactly one active token of the expected kind must remain.
+#[cfg(not(kani))]
+pub fn m_replay_wiring() {
+    let n: u8 = vany();
+    vassume(n >= 1 && n <= 6);
+    let mut codes = [0u8; 6];
+    let mut i = 0usize;
+    while i < n as usize { codes[i] = vany(); i += 1; }
+    let want: u8 = vany();
+    let cfg = real_config();
+    let session = Session::new();
+    let words = ["to", "as", "in", "at", "eur", "hours", "days", "km", "hex", "binary", "octal", "date", "unix", "unixtime"];
+    let usd = cfg.get_currency("usd".to_string()).expect("usd");
+    let metre = { let mut found = None; for (_, g) in cfg.types.iter() { for (_, t) in g.iter() { if t.names.iter().any(|x| x == "m") { found = Some(t.clone()); } } } found.expect("unit m") };
+    let day = NaiveDate::from_ymd_opt(2020, 1, 15).unwrap();
+    let mut tk = en_tokinizer(&cfg, &session);
+    i = 0;
+    while i < n as usize {
+        let tok = match codes[i] {
+            0 => TokenType::Number(1577836800.0, NumberType::Decimal), 1 => TokenType::Percent(5.0), 2 => TokenType::Money(10.0, usd.clone()),
+            3 => TokenType::Date(day, tz0()), 4 => TokenType::Time(day.and_hms_opt(10, 30, 0).unwrap(), tz0()), 5 => TokenType::DateTime(day.and_hms_opt(10, 30, 0).unwrap(), tz0()),
+            6 => TokenType::Duration(Duration::seconds(3600 * (i as i64 + 1))), 7 => TokenType::Timezone("EST".to_string(), -300), 8 => TokenType::DynamicType(5.0, metre.clone()),
+            c => TokenType::Text(words[(c - 16) as usize].to_string()),
+        };
+        tk.token_infos.push(c03_ti(2 * i, "x", tok));
+        i += 1;
+    }
+    crate::tokinizer::verif_k_local::run_rule_tokinizer(&mut tk);
+    let active: Vec<&Rc<TokenInfo>> = tk.token_infos.iter().filter(|t| t.status.get() == TokenInfoStatus::Active).collect();
+    assert!(active.len() == 1);
+    let kind = match active[0].token_type.borrow().as_ref() {
+        Some(TokenType::Number(_, _)) => 0u8, Some(TokenType::Percent(_)) => 1, Some(TokenType::Money(_, _)) => 2, Some(TokenType::Date(_, _)) => 3, Some(TokenType::Time(_, _)) => 4,
+        Some(TokenType::DateTime(_, _)) => 5, Some(TokenType::Duration(_)) => 6, Some(TokenType::Timezone(_, _)) => 7, Some(TokenType::DynamicType(_, _)) => 8, _ => 99 };
+    assert!(want == 255 || kind == want);
+}
+#[cfg(kani)]
+pub fn m_replay_wiring() {}
